@@ -346,6 +346,14 @@ class Registry(object):
         return self.ids.get(ident)
 
 
+def _inside(node, anc):
+    while node is not None:
+        if node is anc:
+            return True
+        node = node.parent
+    return False
+
+
 def first_signature(start):
     for n in start.iter():                               # T3
         if n.ns == DS and n.tag == 'Signature':
@@ -401,7 +409,13 @@ def _references(sig, root, reg, info):
         dv = r.find(DS, 'DigestValue')
         if dv is None:
             raise ToolError('no DigestValue')
-        digest = hashlib.new(DIGESTS[alg], canon(target, sig if enveloped else None)).digest()
+        if enveloped and _inside(target, sig):
+            # the enveloped-signature transform removes the operated signature's subtree from
+            # the referenced node set: nothing is left of a target that lies inside it
+            octets = b''
+        else:
+            octets = canon(target, sig if enveloped else None)
+        digest = hashlib.new(DIGESTS[alg], octets).digest()
         out.append((r, dv, digest))
         info['refs'].append({'uri': uri, 'target': target.path(), 'enveloped': enveloped})
     return si, out
